@@ -19,6 +19,8 @@ pub mod c19;
 
 #[cfg(not(kani))]
 pub mod numreplay;
+#[cfg(all(not(kani), feature = "compiler"))]
+pub mod planreplay;
 
 /// All replayable harnesses (native build only).
 #[cfg(not(kani))]
